@@ -84,6 +84,8 @@ def delete_hunk(cells):
 
 def fp_hunks(fp):
     """list of hunk texts of a file patch, in order"""
+    if fp['kind'] == 'E':
+        return [hunk_text({'cell': 1, 'from': 0, 'to': 1})]
     if fp['kind'] == 'M':
         return [hunk_text(h) for h in fp['hunks']]
     if fp['kind'] == 'C':
@@ -101,6 +103,10 @@ def name(p, pre):
 
 
 def render_fp(fp, pre=('a', 'b')):
+    if fp['kind'] == 'E':
+        # refused with an error: the new name leaves the working tree (the old name keeps it with that file's worker)
+        o, n = name(fp['old'], pre[0]), name(fp['old'], pre[1] + '/..')
+        return b'diff --git ' + o + b' ' + n + b'\n--- ' + o + b'\n+++ ' + n + b'\n' + fp_hunks(fp)[0]
     o = fp['old'] if fp['old'] != 'NULL' else fp['new']
     n = fp['new'] if fp['new'] != 'NULL' else fp['old']
     if fp['kind'] == 'C' and not fp['to']:
@@ -249,7 +255,11 @@ def compare(snap, scenario, out, cfg, rc, stderr, first=0, names_before=()):
         want_names = list(names_before) + [patch_name(first + i) for i in range(1, out['applied'] + 1)]
         got = files.get('.pc/applied-patches')
         got_names = got[0].decode('latin-1').split('\n')[:-1] if got else None
-        if got_names != want_names:
+        if out.get('error') and not names_before:
+            # the push ended in an error before anything was written: there is no .pc at all
+            if got is not None or any(p.startswith('.pc') for p in snap):
+                probs.append(('applied', '.pc exists after a push that ended in an error before writing anything'))
+        elif got_names != want_names:
             probs.append(('applied', '.pc/applied-patches holds %s, reference %s' % (got_names, want_names)))
     return probs
 
